@@ -9,7 +9,7 @@ TECH = {
          "Every byte length 0..2B+9 and every bit length up to 2 blocks for 10 algorithms are enumerated; random multi-block messages, multi-word counters via preset midstates and over-long bit lengths are sampled. Exploration: finds violations, does not prove absence."),
  "C02": ("differential testing against independent reference ciphers (enc and dec written separately): single-bit sweeps, exhaustive GF(2^8) table, Hypothesis, call histories, rejection of undefined sizes",
          "All 65 536 gmul pairs exhaustively; every single-bit block/key/tweak per configuration; random blocks; sizes the algorithms do not define must raise."),
- "C03": ("round-trip (inverse) relations: enumeration of whole component domains + Hypothesis round trips + one-object histories with refused calls",
+ "C03": ("round-trip (inverse) relations: enumeration of whole component domains + Hypothesis round trips + one-object histories with refused calls, sibling objects and shared key vectors",
          "Component pairs (S-boxes, permutations, linear layers, rotations for all widths <= 11/16, index maps) are enumerated on their whole domain or a basis of it; cipher round trips sampled."),
  "C04": ("differential testing against a reference sponge on bit lists and hashlib: exhaustive small widths (every rate, every bit length) + Hypothesis + duplex histories",
          "Keccak[25]/[50] exhaustively over every rate and bit length in both bit orders; larger widths, SHA-3/SHAKE and duplex call sequences sampled."),
@@ -39,7 +39,7 @@ TECH = {
          "All ordered pairs x 5 operators in both orders on small rings; rings up to 2^64 and dimensions up to 20 sampled."),
  "C17": ("differential testing against a reference MD6: every digest size, every bit-length residue on 1-3 levels, Hypothesis over trees up to 4 levels (reduced rounds) and default rounds, reused objects",
          "d = 1..512, L in {0,1,2,3,64}, keys, rounds 1..8 and default; up to 36 (70) leaves."),
- "C18": ("translation-validation style differential testing: each generated table network (program) is validated against FIPS 46-3 on 64 single-bit blocks + special + random blocks; table shape and key independence",
+ "C18": ("translation-validation style differential testing: each generated table network (program) is validated against FIPS 46-3 on 64 single-bit blocks + special + random blocks; table shape and key independence; networks generated side by side",
          "242 (>= 1000 thorough) programs incl. weak/semi-weak/parity-twin keys; exploration, not exhaustive over keys."),
  "C19": ("model-based testing against TLSH / Nilsimsa models: all 30 configurations x gate lengths, Hypothesis data classes, from_hash round trip, distance laws over produced and arbitrary digests; atheris (thorough)",
          "Digest or None == model; distances symmetric, zero on identical, equal across object/bytes forms."),
